@@ -155,7 +155,10 @@ Lemma transition_spec : forall cx s ip r c al aof p,
    s_remote_win_scale s' = r_window_scale r /\ s_timer s' = s_timer s /\
    s_remote_mss s' = s_remote_mss (tcp_apply_mss s r) /\
    s_remote_win_shift s' = (if is_some (r_window_scale r) then s_remote_win_shift s else 0) /\
-   s_syn_unacked_in_fin_wait s' = s_syn_unacked_in_fin_wait s).
+   s_syn_unacked_in_fin_wait s' = s_syn_unacked_in_fin_wait s) \/
+  (* a handshake reset returns a listening socket to a pristine LISTEN *)
+  (s_state s = SynReceived /\ c = CRst /\ is_ret p = true /\
+   s' = tcp_set_state (upd_listen_endpoint (tcp_reset s) (s_listen_endpoint s)) Listen).
 Proof.
   intros cx s ip r c al aof p H Hc. unfold tcp_process_transition in H. cbv zeta.
   destruct (s_state s) eqn:Est, c; try congruence;
@@ -170,7 +173,8 @@ Proof.
   try (right; left; unfold tcp_enter_time_wait, tcp_fin_received, tcp_set_state;
        eexists; eexists; split; [reflexivity|]; split;
        [first [left; reflexivity | right; eexists; reflexivity]|]; unfold st_rel; cbn [cls];
-       split; [solve [auto 7 | intuition (congruence || lia)]|split; congruence]).
+       split; [solve [auto 7 | intuition (congruence || lia)]|split; congruence]);
+  try (do 4 right; repeat split; reflexivity).
   all: repeat match goal with H : is_some (s_remote_win_scale _) = _ |- _ => fld_in H; fld; rewrite H
                             | H : is_some (r_ack_number _) = _ |- _ => fld_in H; fld; rewrite ?H end;
        assert (Hm : s_tx_buffer (tcp_apply_mss s r) = s_tx_buffer s /\
@@ -183,7 +187,7 @@ Proof.
          by (unfold tcp_apply_mss; destruct (r_max_seg_size r) as [m|]; [destruct (m =? 0)|]; fld;
              repeat split; reflexivity);
        destruct Hm as (M1 & M2 & M3 & M4 & M5 & M6 & M7); fld; rewrite ?M1, ?M2, ?M3, ?M4, ?M5, ?M6, ?M7;
-       right; right; first [left; repeat split; reflexivity | right; repeat split; reflexivity].
+       right; right; first [left; repeat split; reflexivity | right; left; repeat split; reflexivity].
 Qed.
 
 (* ------------------------------------------------------------------------------------------ *)
@@ -687,3 +691,37 @@ Proof.
     destruct st'; cbn [cls] in Hn; try exact I;
     exfalso; intuition (subst; cbn [cls] in *; try lia; try congruence; try discriminate).
 Qed.
+
+(* a socket at the start of an epoch: empty transmit buffer, SND.UNA = SND.NXT = ISS *)
+Definition g_fresh (isn : Z) : ghost := mkGhost isn [] 0 PSyn 0 false 0.
+
+Lemma fresh_inv : forall s isn,
+  rb_wf (s_tx_buffer s) -> rb_cap (s_tx_buffer s) <= 2 ^ 30 -> rb_len (s_tx_buffer s) = 0 ->
+  0 <= isn < 2 ^ 32 -> s_local_seq_no s = isn -> s_remote_last_seq s = isn ->
+  0 <= s_remote_win_len s <= max_window ->
+  match s_remote_win_scale s with Some v => 0 <= v <= 14 | None => True end ->
+  match s_state s with Closed | Listen | SynSent | SynReceived => True | _ => False end ->
+  (timer_is_zero_window_probe (s_timer s) = true -> s_remote_win_len s = 0) ->
+  inv (g_fresh isn) s.
+Proof.
+  intros s isn Hwf Hcap Hlen Hisn Hl Hr Hw Hs Hst Hz. split.
+  - unfold tx_inv, tx_inv_f, g_fresh, g_una, g_budget, phase_ok, g_W.
+    cbn [g_iss g_stream g_acked g_phase g_flight g_fin g_hw]. rewrite Hlen, Hl, Hr.
+    split; [exact Hwf|]. split; [exact Hcap|]. split; [lia|]. split; [reflexivity|].
+    split; [intros; lia|]. split; [rewrite Z.add_0_r; symmetry; apply sq_small; exact Hisn|].
+    split; [rewrite !Z.add_0_r; symmetry; apply sq_small; exact Hisn|].
+    split; [lia|]. split; [lia|].
+    split; [destruct (s_state s); tauto|]. split; [exact Hw|exact Hs].
+  - unfold tm_inv, tm_inv_f, g_fresh. cbn [g_flight]. split; [exact Hz|auto].
+Qed.
+
+Lemma new_epoch_fresh : forall g isn, ghost_rel g (g_fresh isn).
+Proof. intros. right. unfold new_epoch, g_fresh. cbn. auto. Qed.
+
+Lemma reset_fields : forall s,
+  s_tx_buffer (tcp_reset s) = rb_clear (s_tx_buffer s) /\
+  s_local_seq_no (tcp_reset s) = 0 /\ s_remote_last_seq (tcp_reset s) = 0 /\
+  s_remote_win_len (tcp_reset s) = 0 /\ s_remote_win_scale (tcp_reset s) = None /\
+  s_timer (tcp_reset s) = TIdle None /\ s_state (tcp_reset s) = Closed.
+Proof. intros. unfold tcp_reset, timer_new. fld. repeat split; reflexivity. Qed.
+
